@@ -286,8 +286,8 @@ PLAN["C09"] = {
              "methods GET/PUT/DELETE/PATCH/HEAD/OPTIONS (=> 405); POST bodies that are not a document (empty, random bytes, wrong top-level JSON type, broken JSON), truncations of a valid document at a drawn offset, a valid document "
              "with a required hex field removed/renamed, a numeric string replaced by a non-number (pool of 19) at a drawn position incl. nested arrays, a wrong JSON type in a numeric position, an index of -1/2^32/1.5/\"3\"/true/[0], "
              "an array replaced by a scalar (all => 400 malformed_body); well-formed documents of wrong dimensions (batch+-1, depth+-1, ragged, empty, 300 elements) and near-valid batches (every invalid class of C01/C02, wrong input hash) "
-             "(=> 400 proving_error); valid batches in four number styles and with 1-4 MB of leading whitespace (=> 200 with a proof that the harness verifies against the request's input hash with gnark's verifier); GRAY documents "
-             "(extra key, null array, a value + r, negative/octal/underscore literals, missing index field, 1-4 MB of zero digits) where either 400 code or a 200 with a verifying proof is accepted. Always: a complete HTTP response, "
+             "(=> 400 proving_error); valid batches in four number styles and with 1-16 MB of leading whitespace (=> 200 with a proof that the harness verifies against the request's input hash with gnark's verifier); GRAY documents "
+             "(extra key, null array, a value + r, negative/octal/underscore literals, missing index field, 1-16 MB of zero digits) where either 400 code or a 200 with a verifying proof is accepted. Always: a complete HTTP response, "
              "no 5xx, answer within 180 s, error bodies are {code,message}. Every sequence is non-trivial (none equals the repository's literal bodies); distinct = SHA-1 of the canonical sequence. "
              "Thorough adds native go fuzzing of the POST body with the same oracle reduced to: complete response, status in {200,400}, 200 => verifying proof, documented error shape."),
     "assumptions": A_COMMON + ["the expected class of each generated request is fixed by construction; where the statement is silent the oracle is three-valued (gray) and only crash/hang/5xx/unverifiable-200 can fail"],
